@@ -664,7 +664,7 @@ def run(ck: common.Check):
 
 
 def replay(rp):
-    case = dict(rp["case"])
+    case = dict(rp.get("case", rp))   # a replay file, or a bare corpus case
     case.setdefault("stream", "replay")
     im = impl_group(case)
     if "write_err" in im or "init_err" in im or "err" in im.get("full", {"err": 1}):
